@@ -32,6 +32,22 @@ Section Statements.
   Definition hidden_of (w : F) (pf : proof F) (sup : list F) := snd (vsplit F f0 (p_mask pf) (hs F gen w (p_count pf)) sup).
 End Statements.
 
+(* the reveal list a caller passes (any order, indexes named twice) denotes a SET: payload, mask and therefore the whole
+   derivation depend only on which indexes occur *)
+Theorem reveal_list_is_a_set : forall m R1 R2, (forall i, In i R1 <-> In i R2) ->
+  mask_of m R1 = mask_of m R2 /\ payload_bytes m R1 = payload_bytes m R2.
+Proof.
+  intros m R1 R2 H. split; [apply mask_of_set_lemma; exact H|].
+  unfold payload_bytes. rewrite (mask_of_set_lemma _ R1 R2 H).
+  replace (existsb (fun r => 8 * bv_len m <=? r) R1) with (existsb (fun r => 8 * bv_len m <=? r) R2); [reflexivity|].
+  destruct (existsb _ R2) eqn:E2; destruct (existsb (fun r => 8 * bv_len m <=? r) R1) eqn:E1; auto.
+  - apply existsb_exists in E2. destruct E2 as [x [Hx Hi]]. apply H in Hx.
+    assert (existsb (fun r => 8 * bv_len m <=? r) R1 = true) by (apply existsb_exists; eauto). congruence.
+  - apply existsb_exists in E1. destruct E1 as [x [Hx Hi]]. apply H in Hx.
+    assert (existsb (fun r => 8 * bv_len m <=? r) R2 = true) by (apply existsb_exists; eauto). congruence.
+Qed.
+Print Assumptions reveal_list_is_a_set.
+
 (* ---------- index bookkeeping ---------- *)
 (* for every mask, generator list and message vector: from the selected messages (followed by anything) the verifier
    rebuilds exactly the prover's partition: message i is paired with generator h_i for exactly the revealed i *)
